@@ -181,12 +181,13 @@ pub mod mpsc {
         // closes the channel for every sender: the receiver's stream ends once the queue is drained, and the parked
         // receiver task is woken
         pub uninterp spec fn chan_closed(&self) -> bool;
+        pub uninterp spec fn chan_id(&self) -> int;
         #[verifier::external_body] pub fn close_channel(&mut self) ensures final(self).chan_closed() { unimplemented!() }
         // only drops THIS handle: the channel stays open while any clone is alive
         #[verifier::external_body] pub fn disconnect(&mut self) { unimplemented!() }
         #[verifier::external_body] pub fn is_closed(&self) -> (r: bool) { unimplemented!() }
     }
-    impl<T> Clone for Sender<T> { #[verifier::external_body] fn clone(&self) -> (r: Self) { unimplemented!() } }
+    impl<T> Clone for Sender<T> { #[verifier::external_body] fn clone(&self) -> (r: Self) ensures r.chan_id() == self.chan_id() { unimplemented!() } }
     #[verifier::external_body] pub fn channel<T: Carried>(buffer: usize) -> (r: (Sender<T>, Receiver<T>)) ensures r.1.budget() == 0, !r.1.closed() { unimplemented!() }
 }
 pub use mpsc::Receiver;
